@@ -242,6 +242,10 @@ def gen(rng, tier):
     # malformed op lines: both sides must answer bad-op
     yield ['feed 0g', 'feed', 'seg 00', 'done 0 00', 'sync 0 00', 'frob', 'feed 00 00']
     yield ['srv', 'feed 00', 'srv', 'seg -', 'seg zz', 'done 0 00', 'done x 00', 'sync 1 00', 'sync 1 01']
+    # the standard method / version names against the fixed reference (a wrong table entry gets a concrete replay)
+    yield ['method ' + hx(m) for m in METHODS] + ['version ' + hx(v) for v in ['HTTP/1.0', 'HTTP/1.1', 'HTTP/2.0']]
+    yield ['method ' + hx(m) for m in ['get', 'GE', 'GETT', '', 'PATCH', 'GET ', 'CONNECT']] + \
+          ['version ' + hx(v) for v in ['HTTP/1.2', 'http/1.1', 'HTTP/1.1 ', '', 'HTTP/3.0']] + ['method zz', 'version']
     # every two-way split and the byte-wise segmentation of a few base streams
     for b in BASE:
         yield ['feed ' + hx(b)]
